@@ -46,21 +46,30 @@ namespace
     typedef DenseVector<DT, IT> DV;
     typedef typename M::VectorTypeL VL; typedef typename M::VectorTypeR VR;
     const auto ops = apply_cases(true);
+    const std::vector<Variant> mvars = {{0, S_BASE}, {1, S_BASE}, {2, S_BASE}, {3, S_BASE}, {0, S_HIST}, {0, S_VIEW}, {0, S_CLONE_DEEP}, {0, S_CLONE_WEAK}, {0, S_MOVE}};
     const int nb = int(L.free.size());
     for(uint64_t bits = 0; bits < (uint64_t(1) << nb); ++bits)
       for(int rep = 0; rep < 2; ++rep)
         for(int iface = 0; iface < (has_dense_iface ? 2 : 1); ++iface)
-          for(int alphabet = 0; alphabet < 2; ++alphabet)
+          for(const Variant& var : mvars)
             for(const ApplyCase& op0 : ops)
             {
+              if(var.scenario == S_VIEW && iface == 0) continue; // sub-range views exist for DenseVector operands only
+              if(var.scenario != S_BASE && rep == 1) continue;    // scenarios with one representation of empty blocks
               if(!c.want()) continue;
-              ApplyCase op = op0; op.alphabet = alphabet;
+              set_extreme_exp<DT>();
+              const int alphabet = var.alphabet;
+              ApplyCase op = op0; op.alphabet = alphabet; op.scenario = var.scenario;
               DenseRef D(L.m, L.n);
               for(int q = 0; q < nb; ++q) if((bits >> q) & 1u) D.set(L.free[size_t(q)].first, L.free[size_t(q)].second, aval(alphabet, L.free[size_t(q)].first, L.free[size_t(q)].second));
               const std::string kind = L.name + (iface ? " dense-iface" : " native-iface");
               c.desc([&]{ return L.name + "<" + tp<DT, IT>() + "> " + D.str() + " empty-block-rep=" + (rep ? "allocated" : "entry-free") + (iface ? " DenseVector interface " : " native vectors ") + op.str(); });
-              M A = build(D, rep);
-              auto mh = [&]{ verif::Hash h; leaves(A, h); return h.get(); };
+              M A0 = build(D, rep);
+              // derived object of the composed matrix (lesson 3); A0 stays alive and must be unchanged
+              M A = (var.scenario == S_CLONE_DEEP) ? A0.clone(CloneMode::Deep) : (var.scenario == S_CLONE_WEAK) ? A0.clone(CloneMode::Weak) : A0.clone(CloneMode::Shallow);
+              if(var.scenario == S_MOVE) { M tmp = A0.clone(CloneMode::Deep); M moved(std::move(tmp)); A = std::move(moved); }
+              if(var.scenario >= S_CLONE_DEEP) c.count("derived_object_cases");
+              auto mh = [&]{ verif::Hash h; leaves(A0, h); leaves(A, h); return h.get(); };
               if(iface == 1)
               {
                 if constexpr(has_dense_iface)
@@ -88,7 +97,7 @@ namespace
                   mh);
               }
               const bool early = (bits == 0) || (op.mode && fabsl(scalars[op.alpha].v) < 1e-10L);
-              if(!early) c.nontrivial(verif::Hash().str(L.name).str(tp<DT, IT>()).pod(bits).pod(rep).pod(iface).pod(op.transposed).pod(op.mode).pod(op.alpha).pod(alphabet).get());
+              if(!early) c.nontrivial(verif::Hash().str(L.name).str(tp<DT, IT>()).pod(bits).pod(rep).pod(iface).pod(op.transposed).pod(op.mode).pod(op.alpha).pod(var).get());
               c.outcome(L.name.substr(0, L.name.find('<')) + "/" + op.name() + (iface ? " dense" : " native") + (early ? " early-out" : ""));
               c.count("applies");
             }
@@ -215,12 +224,12 @@ namespace
 int main(int argc, char** argv)
 {
   FEAT::Runtime::ScopeGuard guard(argc, argv);
-  verif::Spec spec; spec.property = "C01"; spec.harness = "c01_apply_meta";
+  verif::Spec spec; spec.property = "C01"; spec.harness = "c01_apply_meta"; spec.case_timeout_s = 120;
   spec.rule = "case = (composed matrix kind with fixed small block dimensions, type pair, one of ALL sparsity patterns of the whole matrix (structurally zero blocks excluded), "
-    "representation of blocks without entries {entry-free, allocated}, interface {native meta vectors, DenseVector}, operation {apply, apply_transposed} x {r:=Ax, r:=y+aAx r!=y, r==y}, alpha, alphabet); "
+    "representation of blocks without entries {entry-free, allocated}, interface {native meta vectors, DenseVector}, variant = alphabet {exact, rounding, all-negative, extreme-magnitude} on a fresh object or scenario {other calls first, sub-range views (DenseVector interface), deep clone, weak clone, moved object}, operation {apply, apply_transposed} x {r:=Ax, r:=y+aAx r!=y, r==y}, alpha); every operation is repeated on the filled objects; "
     "non-trivial = matrix has entries and |alpha|>=eps; hash over all of these";
   spec.bounds_quick = "TupleMatrix 2x2 blocks rows(1,2) cols(2,1) and 3x2 blocks (512 patterns each), TupleDiagMatrix<1x2,2x2> (64), PowerDiag<2> blocks 2x1,1x2,2x2 (16,16,256), PowerFull<2,2> blocks 1x2,2x1 (256 each), "
-    "PowerRow<2> 2x2 (256), PowerRow<3> 2x1,1x2 (64 each), PowerCol likewise, SaddlePoint<CSR,CSR,CSR> (256), SaddlePoint<PowerDiag,PowerCol,PowerRow> (1024); (double,u64) and (float,u32); all 7 alphas";
+    "PowerRow<2> 2x2 (256), PowerRow<3> 2x1,1x2 (64 each), PowerCol likewise, SaddlePoint<CSR,CSR,CSR> (256), SaddlePoint<PowerDiag,PowerCol,PowerRow> (1024); (double,u64) and (float,u32); 9 scalars; 9 variants";
   spec.bounds_thorough = "same as quick (the space is completed in the quick tier)";
   spec.assumptions = {
     "leaves are SparseMatrixCSR (the leaf kernels of all formats are covered by c01_apply_csr / c01_apply_blk)",
